@@ -782,6 +782,11 @@ class MatlabWrapper(CheckMixin, FormatMixin):
                            function_name=function_name))
             properties.append(getter)
 
+            # A const property is read-only: it has no setter (neither the
+            # set method nor a gateway routine assigning to the const member).
+            if propty.ctype.is_const:
+                continue
+
             # Setter doesn't need varargin since it needs just one input.
             function_name = namespace_name + inst_class.name + '_set_' + propty.name
             setter = """
